@@ -106,6 +106,14 @@ func genC14(p *sim.Plan, r *sim.Rand, tier string) {
 			p.Ops = append(p.Ops, sim.Op{At: at, Actor: who, Kind: "msg", I: []int64{int64(i), int64(r.Range(0, 2000))}})
 		}
 		p.Horizon = total
+		if p.C("tr") == 2 && r.Bool(0.4) {
+			// an upgrade that takes about as long as a heartbeat period (slow WebSocket path): the first
+			// ping falls into the switch-over, when no poll request is waiting and the new transport is
+			// not in charge yet
+			p.Set("lat_us", 20000)
+			p.Set("jit_us", 2000)
+			p.Set("lat_ws_pct", int64(r.Range(300, 1400)))
+		}
 	}
 }
 
@@ -150,7 +158,11 @@ func runC14(e *sim.Env) {
 	p := e.Plan
 	I := world.Ms(p.C("ping_interval_ms"))
 	T := world.Ms(p.C("ping_timeout_ms"))
-	w := world.New(e, world.NetConfigFromPlan(p))
+	netCfg := world.NetConfigFromPlan(p)
+	if pct := p.C("lat_ws_pct"); pct > 0 {
+		netCfg.LatPct = map[string]int64{"c0w": pct}
+	}
+	w := world.New(e, netCfg)
 	es := w.StartEIOServer(&eio.ServerConfig{PingInterval: I, PingTimeout: T, UpgradeTimeout: 3 * time.Second})
 	w.Net.Schedule(p.Faults)
 
@@ -200,6 +212,13 @@ func runC14(e *sim.Env) {
 			return
 		}
 		_, ccl, _, cHeart, cOpen := cli.Snapshot()
+		if len(ccl) > 0 && ccl[0].At < faultAt && 8*(p.C("lat_us")+p.C("jit_us"))*1000 >= int64(T) {
+			// On a link this slow a healthy heartbeat round can exceed pingTimeout (during an upgrade the
+			// ping queued on long-polling needs four one-way trips of up to 300 ms to arrive, the pong one
+			// more): a time-out before the fault is the configuration's doing. Nothing to measure.
+			e.Probe("closed-before-fault-slow-link")
+			return
+		}
 		if len(ccl) > 0 && ccl[0].At < faultAt {
 			e.Violate("C14/closed-before-fault", "client", "client closed (%s) at t=%d before the black hole at t=%d", ccl[0].Reason, ccl[0].At, faultAt)
 			return
